@@ -19,6 +19,8 @@ Inductive fate :=
 
 Inductive aop :=
 | ARecv (addr n : Z) (fates : list fate)      (* receive_datagram(data, addr) with len(data) = n *)
+| ARecvPending (addr n : Z)                   (* receive_datagram while _close_pending: returns at once, nothing is
+                                                 counted (fix 54d8ff0; before, the bytes were counted) *)
 | ASend (mf : option Z) (ops : list op)       (* datagrams_to_send, normal branch: builder ops, then flush *)
 | AClose (ops : list op)                      (* datagrams_to_send with _close_pending: no budgets are set *)
 | ATerm.                                      (* idle timeout / close received: the connection enters an END state *)
@@ -114,6 +116,7 @@ Definition astep (a : acfg) (s : ast) (o : aop) : ast :=
   let ps := as_paths s in
   match o with
   | ARecv addr n fs => mkAst (recv ps addr n fs) false
+  | ARecvPending _ _ => s
   | ASend mf ops => mkAst (send_lens ps (round_lens a mf (budget ps) ops)) false
   | AClose ops => mkAst (send_lens ps (round_lens a None None ops)) true
   | ATerm => mkAst ps true
@@ -127,6 +130,7 @@ Definition aop_ok (a : acfg) (s : ast) (o : aop) : bool :=
   as_closed s ||
   match o with
   | ARecv _ n _ => 0 <=? n
+  | ARecvPending _ n => 0 <=? n
   | ASend mf ops =>
       let c := mkCfg (a_client a) (a_mds a) (a_peer a) (a_host a) (a_token a) mf (budget (as_paths s)) in
       disciplined c (init_st c 0) (ops ++ [OpFlush])
@@ -196,6 +200,7 @@ Fixpoint exec_aops (fuel : nat) (ps : list path) (closed : bool) (t : list Z) : 
       let ps' := if closed then ps else send_lens ps lens in
       out_paths ps' ++ exec_aops fuel ps' true r
   | 3 :: r => exec_aops fuel ps true r
+  | 4 :: addr :: n :: r => out_paths ps ++ exec_aops fuel ps closed r
   | _ => []
   end end.
 
